@@ -35,9 +35,10 @@ RULE = ("trees of 2-4 files with some files damaged within capacity, both tools;
 
 def run(oc, tier, seed, model_available, escalate):
     rng = random.Random(seed * 1000003 + 13)
-    n = 12 if tier == "quick" else 200
+    n = 12 if tier == "quick" else 60
     if escalate:
         n *= 2
+    full_sweeps = 0
     d = os.path.join(common.scratch(), "c13")
     lines, impl = [], []
     for it in range(n):
@@ -77,8 +78,11 @@ def run(oc, tier, seed, model_available, escalate):
             cuts |= {s, s + 3, s + 10, s + 11, e - 1, e, f["delims"][0] + 2, f["size"][0], f["path_ecc"][0] + 1, f["size_ecc"][0] + 1,
                      f["track"][0], f["track"][0] + 1, f["track"][0] + eu.HASHLEN[P.hash], min(e, f["track"][0] + eu.HASHLEN[P.hash] + 3)}
         cuts |= {rng.randrange(len(data) + 1) for _ in range(10)}
-        if tier == "thorough" and len(data) < 1500:
-            cuts |= set(range(len(data) + 1))
+        if tier == "thorough" and len(data) < 1500 and full_sweeps < 8:
+            cuts |= set(range(len(data) + 1))      # every offset (about 3 min per ecc file): the first 8 small ecc files
+            full_sweeps += 1
+        elif tier == "thorough":
+            cuts |= {rng.randrange(len(data) + 1) for _ in range(120)}
         cuts = sorted(x for x in cuts if 0 <= x <= len(data))
         if tier == "quick" and len(cuts) > 22:
             cuts = sorted(rng.sample(cuts, 22))
